@@ -83,6 +83,29 @@ Qed.
 Lemma vslot_ids : forall pr v1 v2, v_raw v1 = v_raw v2 -> vslot pr v1 = vslot pr v2.
 Proof. intros pr v1 v2 H. unfold vslot. rewrite H. reflexivity. Qed.
 
+Lemma filter_disjoint_length : forall {A} (f g : A -> bool) (l : list A),
+  (forall x, In x l -> f x = true -> g x = true -> False) ->
+  (length (filter f l) + length (filter g l) <= length l)%nat.
+Proof.
+  intros A f g l H. induction l as [|x l IH]; [cbn; lia|].
+  assert (IH' : (length (filter f l) + length (filter g l) <= length l)%nat).
+  { apply IH. intros y Hy. apply H. right; exact Hy. }
+  specialize (H x (or_introl eq_refl)). cbn [filter].
+  destruct (f x) eqn:Ef, (g x) eqn:Eg; cbn [length]; try lia;
+    exfalso; apply H; reflexivity.
+Qed.
+
+(* two different ids share no node *)
+Lemma cnt_disjoint : forall st pr ps inb1 inb2 id1 id2, id1 <> id2 ->
+  (cnt st pr ps inb1 id1 + cnt st pr ps inb2 id2 <= Z.of_nat (length ps))%Z.
+Proof.
+  intros st pr ps inb1 inb2 id1 id2 Hne. unfold cnt.
+  rewrite <- Nat2Z.inj_add. apply Nat2Z.inj_le. apply filter_disjoint_length.
+  intros x _ H1 H2. destruct (okb st pr x) as [v|]; [|discriminate].
+  apply andb_true_iff in H1 as [H1 _]. apply andb_true_iff in H2 as [H2 _].
+  apply N.eqb_eq in H1, H2. congruence.
+Qed.
+
 (* ------------------------------------------------------------------------------------------- *)
 (* the common part of the two majority strategies *)
 
@@ -201,6 +224,70 @@ Section MajCore.
       rewrite (sch_tcount st pr ps sch _ _ Hs) in NN. split; lia.
   Qed.
 
+  (* every node heard of, or the hard timeout consumed: no answer given before the hard timeout
+     is outstanding *)
+  Lemma post_late :
+    ((Z.of_nat (length ps) <= msgs (map snd pre))%Z \/ existsb is_hard (map snd pre) = true) ->
+    forall x, In x post -> is_resp (snd x) = true -> p_timeout pr <= fst x.
+  Proof.
+    intros [Hst|Hst].
+    - intros [u e] Hx Hr. exfalso. destruct e as [p v| | |]; try discriminate.
+      pose proof (sch_msgs _ _ _ _ Hs) as Hmm. rewrite E, map_app, msgs_app in Hmm.
+      assert (G : (1 <= msgs (map snd post))%Z).
+      { apply (msgs_in_resp _ p v). apply in_map_iff. exists (u, EResp p v). auto. }
+      unfold tevent in *. lia.
+    - apply existsb_exists in Hst as [e [He Hh]]. destruct e; try discriminate.
+      apply in_map_iff in He as [[th e] [He Hin]]. cbn in He. subst e.
+      assert (Hin' : In (th, EHard) sch) by (rewrite E; apply in_or_app; left; exact Hin).
+      pose proof (sch_hard_time _ _ _ _ _ Hs Hin') as ->.
+      apply Hpre in Hin. cbn in Hin. intros x Hx _. apply Hpost in Hx. lia.
+  Qed.
+
+  (* a value is used and the loops stopped because every node was heard of, or the exit count (a
+     strict majority of the nodes at least) was reached, or at the hard timeout -- not because the
+     soft timeout found something in hand: the choice is FINAL.  No other value is reported by
+     more nodes within the whole timeout, and one reported by as many has no higher head slot. *)
+  Lemma maj_used_final : forall v exit, maj_result (vslot pr) thr order = Some v ->
+    (Z.of_nat (length ps) / 2 + 1 <= exit)%Z ->
+    ((Z.of_nat (length ps) <= msgs (map snd pre))%Z
+     \/ (exit <= largest (fold_left (bump v_id) vs []))%Z
+     \/ existsb is_hard (map snd pre) = true) ->
+    forall p1 v1, In p1 ps -> gives_ok st pr p1 v1 -> v_id v1 <> v_id v ->
+      (cnt_lt (p_timeout pr) (v_id v1) <= cnt_le t (v_id v))%Z
+      /\ (cnt_lt (p_timeout pr) (v_id v1) = cnt_le t (v_id v) -> vslot pr v1 <= vslot pr v).
+  Proof.
+    intros v exit Hm Hex Hstop p1 v1 Hp1 Hg1 Hne.
+    pose proof (maj_plurality v_id (vslot pr) vs order thr vs_key_slot Hperm) as P. rewrite Hm in P.
+    destruct P as (Hf & Hthr & H1 & Hall).
+    pose proof (votes_le_cnt (v_id v)) as U.
+    assert (Hlate : (forall x, In x post -> is_resp (snd x) = true -> p_timeout pr <= fst x) ->
+                    (cnt_lt (p_timeout pr) (v_id v1) <= cnt_le t (v_id v))%Z
+                    /\ (cnt_lt (p_timeout pr) (v_id v1) = cnt_le t (v_id v) -> vslot pr v1 <= vslot pr v)).
+    { intro HallT. pose proof (cnt_lt_le_votes_all (p_timeout pr) (v_id v1) HallT) as L.
+      destruct (Z_lt_le_dec 0 (cnt_lt (p_timeout pr) (v_id v1))) as [Q|Q].
+      - destruct (find (fun x => v_id x =? v_id v1) vs) as [v0|] eqn:Ef.
+        + destruct (find_some_votes v_id _ _ _ Ef) as (_ & Hk & Hin0).
+          destruct (Hall v0 Hin0) as [A1 A2]. rewrite Hk in A1, A2. split; [lia|].
+          intro Eq. assert (Hs0 : vslot pr v0 <= vslot pr v) by (apply A2; lia).
+          rewrite <- (vslot_ids pr v0 v1); [exact Hs0|].
+          destruct (in_vs_gives v0 Hin0) as [p2 (Hp2 & [[Hb2 _] _] & _)]. destruct Hg1 as [[Hb1 _] _].
+          apply (Hids p2 p1 v0 v1 Hp2 Hp1 Hb2 Hb1 Hk).
+        + rewrite (find_none_votes v_id _ _ Ef) in L. lia.
+      - split; lia. }
+    destruct Hstop as [Hst|[Hst|Hst]].
+    - apply Hlate. apply post_late. left. exact Hst.
+    - (* the exit count: a strict majority of the nodes reported [v] *)
+      assert (Hbig : (exit <= votes v_id vs (v_id v))%Z).
+      { destruct (largest_tbl v_id vs) as [_ [H0|[v' [Hin' Hv']]]].
+        - pose proof (Z.div_pos (Z.of_nat (length ps)) 2 ltac:(lia) ltac:(lia)). lia.
+        - destruct (Hall v' Hin') as [A1 _]. lia. }
+      pose proof (cnt_disjoint st pr ps (fun x => (x <? p_timeout pr)%N) (fun x => (x <=? t)%N) (v_id v1) (v_id v) Hne) as D.
+      pose proof (Z.div_mod (Z.of_nat (length ps)) 2 ltac:(lia)) as Dm.
+      pose proof (Z.mod_pos_bound (Z.of_nat (length ps)) 2 ltac:(lia)) as Db.
+      split; lia.
+    - apply Hlate. apply post_late. right. exact Hst.
+  Qed.
+
   (* nothing is used, the loops having stopped for one of their reasons *)
   Lemma maj_unused : forall exit,
     maj_result (vslot pr) thr order = None ->
@@ -253,10 +340,15 @@ Lemma maj_outcome_spec : forall st pr ps r t,
   ((exists p0 v, r = result_of (Some v) /\ In p0 ps /\ gives_ok st pr p0 v /\ pv_time p0 <= t
       /\ (1 <= cnt st pr ps (fun x => (x <=? t)%N) (v_id v))%Z
       /\ (maj_thr st pr <= cnt st pr ps (fun x => (x <=? t)%N) (v_id v))%Z
-      /\ forall p1 v1, In p1 ps -> gives_ok st pr p1 v1 ->
+      /\ (forall p1 v1, In p1 ps -> gives_ok st pr p1 v1 ->
            (cnt st pr ps (fun x => (x <? t)%N) (v_id v1) <= cnt st pr ps (fun x => (x <=? t)%N) (v_id v))%Z
            /\ (cnt st pr ps (fun x => (x <? t)%N) (v_id v1) = cnt st pr ps (fun x => (x <=? t)%N) (v_id v)
                -> vslot pr v1 <= vslot pr v))
+      /\ (maj_final (template_of st) (p_timeout pr) t = true ->
+          forall p1 v1, In p1 ps -> gives_ok st pr p1 v1 -> v_id v1 <> v_id v ->
+           (cnt st pr ps (fun x => (x <? p_timeout pr)%N) (v_id v1) <= cnt st pr ps (fun x => (x <=? t)%N) (v_id v))%Z
+           /\ (cnt st pr ps (fun x => (x <? p_timeout pr)%N) (v_id v1) = cnt st pr ps (fun x => (x <=? t)%N) (v_id v)
+               -> vslot pr v1 <= vslot pr v)))
    \/ (r = RErr /\ forall p1 v1, In p1 ps -> gives_ok st pr p1 v1 ->
          (cnt st pr ps (fun x => (x <? p_timeout pr)%N) (v_id v1) < Z.max 1 (maj_thr st pr))%Z)).
 Proof.
@@ -275,7 +367,14 @@ Proof.
     apply perms_perm in Ho. rewrite Ha in Ho. unfold accf in Ho.
     destruct (maj_result (vslot pr) (Z.of_N (p_threshold pr)) order) as [v|] eqn:Em.
     + left. destruct (maj_used st pr ps sch pre post t' Hs E Hpre Hpost Hids _ order Ho v Em) as [p0 (A1 & A2 & A3 & A4 & A5 & A6)].
-      exists p0, v. repeat (split; [first [reflexivity | assumption]|]). exact A6.
+      exists p0, v. repeat (split; [first [reflexivity | assumption]|]). intros _.
+      apply (maj_used_final st pr ps sch pre post t' Hs E Hpre Hpost Hids _ order Ho v
+               (att_exit (Z.of_nat (length ps)) (Z.of_N (p_threshold pr))) Em).
+      * unfold att_exit. lia.
+      * unfold m_stop in Hst. apply orb_true_iff in Hst as [Hst|Hst]; [apply orb_true_iff in Hst as [Hst|Hst]|].
+        -- left. lia.
+        -- right; left. unfold accf in Hst. lia.
+        -- right; right. exact Hst.
     + right. split; [reflexivity|].
       apply (maj_unused st pr ps sch pre post t' Hs E Hpre Hpost Hids _ order Ho
                (att_exit (Z.of_nat (length ps)) (Z.of_N (p_threshold pr))) Em).
@@ -296,7 +395,20 @@ Proof.
     apply perms_perm in Ho. rewrite Ha in Ho. unfold accf in Ho.
     destruct (maj_result (vslot pr) 0 order) as [v|] eqn:Em.
     + left. destruct (maj_used st pr ps sch pre post t' Hs E Hpre Hpost Hids _ order Ho v Em) as [p0 (A1 & A2 & A3 & A4 & A5 & A6)].
-      exists p0, v. repeat (split; [first [reflexivity | assumption]|]). exact A6.
+      exists p0, v. repeat (split; [first [reflexivity | assumption]|]). intro Hfin. cbn [maj_final] in Hfin.
+      apply (maj_used_final st pr ps sch pre post t' Hs E Hpre Hpost Hids _ order Ho v
+               (Z.of_nat (length ps) / 2 + 1)%Z Em); [lia|].
+      unfold b_stop in Hst. apply orb_true_iff in Hst as [Hst|Hst]; [apply orb_true_iff in Hst as [Hst|Hst]; [apply orb_true_iff in Hst as [Hst|Hst]|]|].
+      * left. lia.
+      * right; left. unfold accf in Hst. lia.
+      * right; right. exact Hst.
+      * (* the soft timeout with something in hand: not before the soft timeout *)
+        exfalso. apply soft_resp_spec in Hst as [p1' [p2' (Hp & _ & _)]].
+        assert (Hsoft : In ESoft (map snd pre)) by (rewrite Hp; apply in_or_app; right; left; reflexivity).
+        apply in_map_iff in Hsoft as [[u e] [He Hin']]. cbn in He. subst e.
+        assert (Hin'' : In (u, ESoft) sch) by (rewrite E; apply in_or_app; left; exact Hin').
+        pose proof (sch_soft_time st pr ps sch u Hs Hin'') as ->.
+        apply Hpre in Hin'. cbn in Hin'. lia.
     + right. split; [reflexivity|].
       apply (maj_unused st pr ps sch pre post t' Hs E Hpre Hpost Hids _ order Ho
                (Z.of_nat (length ps) / 2 + 1)%Z Em); try lia.
